@@ -18,6 +18,7 @@ VERIF = os.path.dirname(os.path.dirname(os.path.abspath(__file__)))
 HARNESS_DIR = os.path.join(VERIF, "harness")
 REPLAY_DIR = os.path.join(VERIF, "replays")
 KNOWN_FINDINGS = os.path.join(VERIF, "known_findings.txt")
+MAX_CONFIRMED = int(os.environ.get("VERIF_MAX_CONFIRMED", "3"))
 
 
 def kill_children():
@@ -231,6 +232,7 @@ def run_property(prop, tier, seed, scratch, only=None, list_only=False, write_ev
     broken = []
     skipped = []
     undecided_optional = []
+    unconfirmed = []
     discharged = 0
     records = []
     for s in specs:
@@ -253,6 +255,10 @@ def run_property(prop, tier, seed, scratch, only=None, list_only=False, write_ev
                 inconclusive.append((s, detail))
         elif verdict == "broken":
             broken.append((s, detail, r))
+        elif verdict == "candidate" and len(violations) >= MAX_CONFIRMED:
+            # enough natively confirmed violations for this run: the remaining candidates are listed, not replayed
+            unconfirmed.append((s, "; ".join(sorted({c["description"] for c in cands}))[:200]))
+            rec["verdict"] = "candidate(not replayed: %d violations already confirmed)" % len(violations)
         elif verdict == "candidate":
             out = confirm_candidate(prop, s, r, cands, crate_of[k], scratch, repo_src, findings)
             rec["replay"] = out["summary"]
@@ -289,6 +295,9 @@ def run_property(prop, tier, seed, scratch, only=None, list_only=False, write_ev
             log("  " + v["text"])
     for kf in known_hits:
         print("KNOWN-FINDING: property=%s %s" % (prop, kf), flush=True)
+    for s, d in unconfirmed:
+        log("CANDIDATE (solver counterexample, not replayed because %d violations are already confirmed) %s: %s" % (
+            len(violations), s["name"], d))
     for s, d in skipped:
         log("SKIPPED %s: %s" % (s["name"], d))
     for s, d in undecided_optional:
@@ -379,33 +388,53 @@ def confirm_candidate(prop, spec, res, cands, crate_dir, scratch, repo_src, find
     for c in cands:
         want.setdefault(c["description"], c)
     chosen = []
-    seen = set()
+    seen = {}
     for pb in pbs:
-        if pb["check_desc"] in want and pb["check_desc"] not in seen:
-            seen.add(pb["check_desc"])
-            chosen.append(pb)
+        if pb["check_desc"] in want:
+            # several checks may share a description (different locations): keep up to 3 of each
+            seen[pb["check_desc"]] = seen.get(pb["check_desc"], 0) + 1
+            if seen[pb["check_desc"]] <= 3:
+                chosen.append(pb)
     if not chosen:
         out["summary"] = "no concrete playback emitted for the failing checks (%s)" % ", ".join(list(want)[:3])
         return out
     kind = spec.get("kind", "holds")
     notes = []
     all_settled = True
-    for pb in chosen[:4]:
+    reported = set()
+    for pb in chosen[:8]:
         fn = spec["name"].split("::")[-1]
         slug = re.sub(r"\W+", "_", pb["check_desc"])[:40]
         rpath = os.path.join(REPLAY_DIR, prop, "%s__%s__%s.rs" % (fn, spec.get("cfg", "dev"), slug))
-        replay_mod.write_replay_file(rpath, prop, spec, pb)
-        meta = replay_mod.read_replay_file(rpath)
-        meta["deps"] = spec.get("deps", [])
-        nat = replay_mod.native_replay(scratch, HARNESS_DIR, meta)
-        profs = replay_mod.reproduced(kind, nat)
-        desc = "; ".join("%s: %s %s" % (p, o, d[:160]) for p, (o, d, _l) in nat.items())
+        meta = {"harness": spec["name"], "module": spec["module"], "source": spec["source"], "inst": spec["inst"],
+                "vals_text": pb["vals_text"], "features": spec.get("features", []), "deps": spec.get("deps", []),
+                "kind": kind}
+        variants = None
+        is_sweep = kind == "must_panic" and pb["check_kind"] != "cover" and spec.get("sweep")
+        if is_sweep:
+            # Kani's `rel` keeps rustc overflow checks, so the path past an overflow is cut in the model;
+            # the real release build wraps.  Sweep the invalid argument (first symbolic value) natively.
+            variants = [replay_mod.parse_vals(pb["vals_text"])] + replay_mod.sweep_variants(
+                pb["vals_text"], 0, spec["sweep"])
+        nat = replay_mod.native_replay(scratch, HARNESS_DIR, meta, variants=variants)
+        hits = replay_mod.reproduced(kind, nat)
+        desc = "; ".join("%s: %s" % (p, ", ".join(sorted({o for o, _d in outs}))) for p, outs in nat.items())
+        first_detail = "; ".join("%s: %s %s" % (p, outs[0][0], outs[0][1][:140]) for p, outs in nat.items())
         notes.append("[%s] %s" % (pb["check_desc"][:60], desc))
-        if profs:
+        if hits:
             all_settled = False
+            if pb["check_desc"] in reported:
+                continue
+            reported.add(pb["check_desc"])
+            prof, k = hits[0]
+            pb2 = dict(pb)
+            if variants is not None:
+                pb2["vals_text"] = replay_mod.format_vals(variants[k])
+                first_detail = "%s: %s %s" % (prof, nat[prof][k][0], nat[prof][k][1][:140])
+            replay_mod.write_replay_file(rpath, prop, spec, pb2)
             kf = match_known(findings, prop, spec, pb["check_desc"])
             text = "%s: check \"%s\" reproduces natively in profile(s) %s (%s)" % (
-                spec["name"], pb["check_desc"], ",".join(profs), desc)
+                spec["name"], pb["check_desc"], ",".join(sorted({h[0] for h in hits})), first_detail)
             if kf:
                 out["known"].append("%s [%s]" % (kf["text"], text))
                 try:
@@ -415,15 +444,11 @@ def confirm_candidate(prop, spec, res, cands, crate_dir, scratch, repo_src, find
             else:
                 out["violations"].append({"replay_path": rpath, "text": text, "harness": spec["name"]})
         else:
-            try:
-                os.unlink(rpath)
-            except OSError:
-                pass
             if not (kind == "must_panic" and pb["check_kind"] != "cover"):
                 all_settled = False
     out["summary"] = " | ".join(notes)
     if kind == "must_panic" and all_settled and not out["violations"] and not out["known"]:
-        # only overflow-class candidates, each of which panics natively in both profiles
+        # only overflow-class candidates, each of which panics natively in both profiles for every swept value
         out["settled"] = True
     return out
 
@@ -436,10 +461,11 @@ def replay_only(prop, path, scratch):
             meta["deps"] = s.get("deps", [])
             break
     nat = replay_mod.native_replay(scratch, HARNESS_DIR, meta)
-    profs = replay_mod.reproduced(meta.get("kind", "holds"), nat)
-    for p, (o, d, _l) in nat.items():
-        log("replay %s [%s]: %s %s" % (meta["harness"], p, o, d[:300]))
-    if profs:
+    hits = replay_mod.reproduced(meta.get("kind", "holds"), nat)
+    for p, outs in nat.items():
+        for (o, d) in outs:
+            log("replay %s [%s]: %s %s" % (meta["harness"], p, o, d[:300]))
+    if hits:
         print("VIOLATION property=%s replay=%s" % (prop, path), flush=True)
         return 1
     log("replay does not reproduce on the current tree")
